@@ -507,6 +507,9 @@ func (ts *TestScript) setup() string {
 		)
 	}
 	ts.cd = env.Cd
+	// The initial variables ($WORK etc.) must be defined when the names of the
+	// archive entries are expanded below.
+	ts.setEnv(env.Vars)
 	// Unpack archive.
 	a, err := txtar.ParseFile(ts.file)
 	ts.Check(err)
@@ -527,16 +530,20 @@ func (ts *TestScript) setup() string {
 		ts.Check(ts.params.Setup(env))
 	}
 	ts.cd = env.Cd
-	ts.env = env.Vars
+	ts.setEnv(env.Vars)
 	ts.values = env.Values
+	return string(a.Comment)
+}
 
+// setEnv makes vars the environment of the script.
+func (ts *TestScript) setEnv(vars []string) {
+	ts.env = vars
 	ts.envMap = make(map[string]string)
 	for _, kv := range ts.env {
 		if i := strings.Index(kv, "="); i >= 0 {
 			ts.envMap[envvarname(kv[:i])] = kv[i+1:]
 		}
 	}
-	return string(a.Comment)
 }
 
 // run runs the test script.
